@@ -259,9 +259,71 @@ static void cross_connections(Tape &t)
 		n, si->name, ver_name(version), ce[0].size(), ce[1].size(), v[0].out[0].size(), v[0].out[1].size()));
 }
 
+// (d) a context used for several connections while the application changes its set of hash functions in between
+// (the DRBG runs over SHA-256, else SHA-384, else SHA-1: a change of that choice must not lose the seed).  Two
+// clients with different injected seeds and the same history: every ClientHello random differs between the two,
+// and between the connections of one client.
+static void reconfigured_reuse(Tape &t)
+{
+	unsigned start = t.u8() % 3;     // 0: all hash functions, 1: no SHA-256, 2: only MD5 + SHA-1
+	unsigned nconn = 2 + t.u8() % 3;
+	Bytes seedA = t.filled(1 + t.u8() % 40), seedB = seedA;
+	seedB[t.idx(seedB.size())] ^= (uint8_t)(1u << (t.u8() % 8));
+	std::vector<unsigned> changes;
+	for (unsigned k = 1; k < nconn; k++) changes.push_back(t.u8() % 5);
+	bool inject_again = t.flag();
+	std::vector<Bytes> rnd[2];
+	std::string hist;
+	for (int who = 0; who < 2; who++) {
+		Profile p;
+		p.entropy.clear();
+		BearClient c(p);
+		br_ssl_engine_context *e = c.eng;
+		if (start == 1) br_ssl_engine_set_hash(e, br_sha256_ID, nullptr);
+		if (start == 2) for (int id = br_sha224_ID; id <= br_sha512_ID; id++) br_ssl_engine_set_hash(e, id, nullptr);
+		const Bytes &seed = who ? seedB : seedA;
+		br_ssl_engine_inject_entropy(e, seed.data(), seed.size());
+		for (unsigned k = 0; k < nconn; k++) {
+			if (k > 0) {
+				static const char *CN[] = { "+sha256", "-sha256", "+sha384", "-sha384", "none" };
+				switch (changes[k - 1]) {
+				case 0: br_ssl_engine_set_hash(e, br_sha256_ID, &br_sha256_vtable); break;
+				case 1: br_ssl_engine_set_hash(e, br_sha256_ID, nullptr); break;
+				case 2: br_ssl_engine_set_hash(e, br_sha384_ID, &br_sha384_vtable); break;
+				case 3: br_ssl_engine_set_hash(e, br_sha384_ID, nullptr); break;
+				default: break;
+				}
+				if (who == 0) hist += fmt("%s ", CN[changes[k - 1]]);
+				if (inject_again && k == 1) br_ssl_engine_inject_entropy(e, seed.data(), 1);
+			}
+			bool ok = c.reset();
+			size_t len;
+			unsigned char *out = br_ssl_engine_sendrec_buf(e, &len);
+			if (!ok || !out || len < 5 + 4 + 2 + 32) { rnd[who].push_back(Bytes()); if (who == 0) hist += "reset=0 "; continue; }   // a reduced hash set may rule the handshake out: nothing emitted, nothing to compare
+			VF_CHECK(out[0] == 22 && out[5] == 1, "harness: not a ClientHello");
+			rnd[who].push_back(Bytes(out + 11, out + 11 + 32));
+			if (who == 0) hist += "reset=1 ";
+		}
+	}
+	std::string desc = fmt("client reused for %u connections, hash functions at start: %s, history [%s]", nconn, start == 0 ? "all" : start == 1 ? "no SHA-256" : "MD5+SHA-1 only", hist.c_str());
+	unsigned compared = 0;
+	for (unsigned k = 0; k < nconn; k++) {
+		VF_CHECK(rnd[0][k].empty() == rnd[1][k].empty(), "%s: connection %u starts with one seed and not with the other", desc.c_str(), k);
+		if (rnd[0][k].empty()) continue;
+		VF_CHECK(rnd[0][k] != rnd[1][k], "%s: connection %u has the same client random %s.. for two different seeds (the generator lost its seed)", desc.c_str(), k, hex(rnd[0][k].data(), 8).c_str());
+		for (unsigned j = 0; j < k; j++) if (!rnd[0][j].empty()) VF_CHECK(rnd[0][k] != rnd[0][j], "%s: connections %u and %u of the same context carry the same client random", desc.c_str(), j, k);
+		compared++;
+	}
+	stats.cls("reconfigured-reuse");
+	stats.eval(compared >= 2 ? fmt("reuse/%u/%u/%s/%d", start, nconn, hist.c_str(), (int)inject_again) : std::string());
+	if (stats.want_sample()) stats.sample(desc + fmt(": %u client randoms differ across seeds and connections", compared));
+}
+
 void target_run(Tape &t)
 {
-	unsigned m = t.u8() % 8;
+	unsigned m0 = t.u8();
+	if (m0 >= 232) { reconfigured_reuse(t); return; }
+	unsigned m = m0 % 8;
 	if (m < 3) gate_case(t);
 	else if (m < 6) long_session(t);
 	else cross_connections(t);
